@@ -196,7 +196,7 @@ fn single_op<K: KeyT>(m: &mut Set<K>, w: &[&str], chk: &mut Vec<String>, held: &
         }
         "len" => format!("num {}", m.len()),
         "dropmap" => {
-            let old = std::mem::replace(m, HashSet::with_hasher_in(PlanBuild, Ledger));
+            let old = std::mem::replace(m, HashSet::with_hasher_in(PlanBuild::default(), Ledger));
             drop(old);
             "unit".into()
         }
@@ -313,8 +313,8 @@ fn binary_op<K: KeyT>(a: &mut Set<K>, b: &Set<K>, w: &[&str], chk: &mut Vec<Stri
 }
 
 pub fn run_set<K: KeyT>(lines: &[String], out: &mut String) {
-    let mut a: Set<K> = HashSet::with_hasher_in(PlanBuild, Ledger);
-    let mut b: Set<K> = HashSet::with_hasher_in(PlanBuild, Ledger);
+    let mut a: Set<K> = HashSet::with_hasher_in(PlanBuild::default(), Ledger);
+    let mut b: Set<K> = HashSet::with_hasher_in(PlanBuild::default(), Ledger);
     let d = a.verif_dump();
     let _ = d;
     let (tsize, calign) = hashbrown::HashMap::<K, (), PlanBuild, Ledger>::verif_table_layout();
